@@ -10,6 +10,8 @@ import (
 	"fmt"
 	"reflect"
 	"sort"
+	"sync"
+	"sync/atomic"
 
 	"github.com/samsarahq/thunder/batch"
 	"github.com/samsarahq/thunder/graphql"
@@ -62,6 +64,8 @@ type TRef struct {
 	K    string `json:"k"`
 	Name string `json:"name,omitempty"`
 	Elem *TRef  `json:"elem,omitempty"`
+	// ByVal: an object handed over as a struct value (T, []T) rather than a pointer; never nil.
+	ByVal bool `json:"by_val,omitempty"`
 }
 
 type FieldSpec struct {
@@ -88,6 +92,8 @@ type Mode struct {
 	Kind     string `json:"kind"`
 	UseBatch bool   `json:"use_batch,omitempty"`
 	Par      int    `json:"par,omitempty"` // 0 none; 1: 1; 2: 2; 3: n/2+1; 4: 0 (clamped); 5: 100 (clamped)
+	// ValRecv: the resolver takes its object by value (T, map[batch.Index]T) instead of by pointer.
+	ValRecv bool `json:"val_recv,omitempty"`
 }
 type Modes map[string]Mode // "Type.field"
 
@@ -153,17 +159,27 @@ func GenSchema(r *vh.Rng) *SchemaSpec {
 			}
 			return all[r.Intn(len(all))]
 		}
+		// an object reference, by pointer or (only towards dynamic types of lower index, so that the
+		// never-nil values cannot nest for ever) by value
+		objRef := func() TRef {
+			if selfIdx > 0 && r.Chance(35) {
+				return TRef{K: "obj", Name: names[r.Intn(selfIdx)], ByVal: true}
+			}
+			return TRef{K: "obj", Name: objName()}
+		}
 		switch k := r.Intn(100); {
 		case k < 25:
 			return TRef{K: scalarKinds[r.Intn(len(scalarKinds))]}
 		case k < 50:
-			return TRef{K: "obj", Name: objName()}
+			return objRef()
 		case k < 72:
-			return TRef{K: "list", Elem: &TRef{K: "obj", Name: objName()}}
+			e := objRef()
+			return TRef{K: "list", Elem: &e}
 		case k < 78:
 			return TRef{K: "list", Elem: &TRef{K: "int"}}
 		case k < 84 && !structOnly:
-			return TRef{K: "list", Elem: &TRef{K: "list", Elem: &TRef{K: "obj", Name: objName()}}}
+			e := objRef()
+			return TRef{K: "list", Elem: &TRef{K: "list", Elem: &e}}
 		case k < 92:
 			return TRef{K: "union", Name: UnionNames[r.Intn(2)]}
 		case k < 97:
@@ -180,7 +196,7 @@ func GenSchema(r *vh.Rng) *SchemaSpec {
 	}
 	q := &TypeSpec{Name: "Query"}
 	// roots: make sure objects and lists are reachable
-	q.Fields = append(q.Fields, FieldSpec{Name: "r0", Ret: TRef{K: "list", Elem: &TRef{K: "obj", Name: names[r.Intn(nd)]}}, Arg: r.Chance(20)})
+	q.Fields = append(q.Fields, FieldSpec{Name: "r0", Ret: TRef{K: "list", Elem: &TRef{K: "obj", Name: names[r.Intn(nd)], ByVal: r.Chance(40)}}, Arg: r.Chance(20)})
 	q.Fields = append(q.Fields, FieldSpec{Name: "r1", Ret: TRef{K: "obj", Name: all[r.Intn(len(all))]}})
 	q.Fields = append(q.Fields, FieldSpec{Name: "r2", Ret: TRef{K: "list", Elem: &TRef{K: "union", Name: UnionNames[r.Intn(2)]}}})
 	nq := r.Intn(3)
@@ -243,11 +259,16 @@ func GenModes(r *vh.Rng, s *SchemaSpec) Modes {
 					switch f.Ret.K {
 					case "int", "str", "bool", "enum":
 						md.Kind = "batch"
+					case "obj":
+						if f.Ret.ByVal {
+							md.Kind = "batch"
+						}
 					}
 				}
 				if md.Kind != "expensive" && r.Chance(45) {
 					md.Par = 1 + r.Intn(5)
 				}
+				md.ValRecv = r.Chance(25)
 			}
 			m[t.Name+"."+f.Name] = md
 		}
@@ -294,7 +315,10 @@ type Built struct {
 	goTyp  map[string]reflect.Type // object name -> struct type
 	data   *Data
 	// Calls counts resolver invocations (function fields only).
-	Calls int
+	Calls int64
+	// one Go pointer per data object, so that the same object reached twice is the same source
+	mu   sync.Mutex
+	ptrs map[int64]reflect.Value
 }
 
 var (
@@ -318,6 +342,9 @@ func (b *Built) goType(t TRef) reflect.Type {
 	case "enum":
 		return reflect.TypeOf(Color(0))
 	case "obj":
+		if t.ByVal {
+			return b.goTyp[t.Name]
+		}
 		return reflect.PtrTo(b.goTyp[t.Name])
 	case "union":
 		return reflect.PtrTo(unionTypes[t.Name])
@@ -335,7 +362,7 @@ func Build(spec *SchemaSpec, modes Modes) (b *Built, err error) {
 			err = fmt.Errorf("schema build panicked: %v", e)
 		}
 	}()
-	b = &Built{Spec: spec, Modes: modes, goTyp: map[string]reflect.Type{}}
+	b = &Built{Spec: spec, Modes: modes, goTyp: map[string]reflect.Type{}, ptrs: map[int64]reflect.Value{}}
 	for n, t := range staticTypes {
 		b.goTyp[n] = t
 	}
@@ -390,23 +417,36 @@ func (b *Built) register(obj *schemabuilder.Object, t *TypeSpec, f FieldSpec, md
 	if md.Par > 0 {
 		opts = append(opts, parFunc(md.Par))
 	}
+	recv := reflect.Type(nil)
+	if !root {
+		recv = reflect.PtrTo(b.goTyp[t.Name])
+		if md.ValRecv {
+			recv = b.goTyp[t.Name]
+		}
+	}
+	oidOf := func(v reflect.Value) int64 {
+		if v.Kind() == reflect.Ptr {
+			v = v.Elem()
+		}
+		return v.FieldByName("Oid").Int()
+	}
 	single := func() interface{} {
 		in := []reflect.Type{ctxType}
 		if !root {
-			in = append(in, reflect.PtrTo(b.goTyp[t.Name]))
+			in = append(in, recv)
 		}
 		if f.Arg {
 			in = append(in, argType)
 		}
 		ft := reflect.FuncOf(in, []reflect.Type{ret, errorType}, false)
 		return reflect.MakeFunc(ft, func(args []reflect.Value) []reflect.Value {
-			b.Calls++
+			atomic.AddInt64(&b.Calls, 1)
 			i := 1
 			var o *Obj
 			if root {
 				o = b.data.Root
 			} else {
-				o = b.data.ByOid[args[i].Elem().FieldByName("Oid").Int()]
+				o = b.data.ByOid[oidOf(args[i])]
 				i++
 			}
 			key := f.Name
@@ -421,7 +461,7 @@ func (b *Built) register(obj *schemabuilder.Object, t *TypeSpec, f FieldSpec, md
 		}).Interface()
 	}
 	batchFn := func() interface{} {
-		src := reflect.MapOf(idxType, reflect.PtrTo(b.goTyp[t.Name]))
+		src := reflect.MapOf(idxType, recv)
 		out := reflect.MapOf(idxType, ret)
 		in := []reflect.Type{ctxType, src}
 		if f.Arg {
@@ -429,7 +469,7 @@ func (b *Built) register(obj *schemabuilder.Object, t *TypeSpec, f FieldSpec, md
 		}
 		ft := reflect.FuncOf(in, []reflect.Type{out, errorType}, false)
 		return reflect.MakeFunc(ft, func(args []reflect.Value) []reflect.Value {
-			b.Calls++
+			atomic.AddInt64(&b.Calls, 1)
 			key := f.Name
 			if f.Arg {
 				key = ArgKey(f.Name, args[2].Field(0).Int())
@@ -444,7 +484,7 @@ func (b *Built) register(obj *schemabuilder.Object, t *TypeSpec, f FieldSpec, md
 					e := errors.New("harness: batch index missing")
 					return []reflect.Value{reflect.Zero(out), reflect.ValueOf(&e).Elem()}
 				}
-				o := b.data.ByOid[sv.Elem().FieldByName("Oid").Int()]
+				o := b.data.ByOid[oidOf(sv)]
 				v, e := b.outcome(o, key, f.Ret)
 				if e != nil {
 					return []reflect.Value{reflect.Zero(out), reflect.ValueOf(&e).Elem()}
@@ -509,6 +549,9 @@ func (b *Built) goValue(t TRef, v *Val) reflect.Value {
 	case "enum":
 		return reflect.ValueOf(Color(v.I))
 	case "obj":
+		if t.ByVal {
+			return b.goObj(v.O).Elem()
+		}
 		return b.goObj(v.O)
 	case "union":
 		u := reflect.New(unionTypes[t.Name])
@@ -525,6 +568,12 @@ func (b *Built) goValue(t TRef, v *Val) reflect.Value {
 }
 
 func (b *Built) goObj(o *Obj) reflect.Value {
+	b.mu.Lock()
+	if p, ok := b.ptrs[o.ID]; ok {
+		b.mu.Unlock()
+		return p
+	}
+	b.mu.Unlock()
 	st := b.goTyp[o.Type]
 	p := reflect.New(st)
 	p.Elem().FieldByName("Oid").SetInt(o.ID)
@@ -535,6 +584,13 @@ func (b *Built) goObj(o *Obj) reflect.Value {
 		}
 		p.Elem().FieldByName(f.GoName).Set(b.goValue(f.Ret, o.Res[f.Name].Val))
 	}
+	b.mu.Lock()
+	if q, ok := b.ptrs[o.ID]; ok {
+		p = q
+	} else {
+		b.ptrs[o.ID] = p
+	}
+	b.mu.Unlock()
 	return p
 }
 
